@@ -56,9 +56,14 @@ package estargz
 //@   props C04
 //@   requires wfR(r) && entOK(r, ent) && ent.Type == "reg"
 //@   ensures[C04] len(result) >= 1 && entsOK(result, len(r.toc.Entries))
+// C02: for a well-formed chunk list (non-empty chunks, contiguous from 0) the entry handed out contains the offset
+//@ pure wfChunkList(s []*TOCEntry) bool = forall j int :: 0 <= j && j < len(s) ==> s[j] != nil && s[j].ChunkSize > 0 && s[j].ChunkOffset >= 0 && s[j].ChunkOffset < 1<<61 && s[j].ChunkSize < 1<<61 && (j == 0 ==> s[j].ChunkOffset == 0) && (j + 1 < len(s) ==> s[j].ChunkOffset + s[j].ChunkSize == s[j+1].ChunkOffset)
 //@ func (r *Reader) ChunkEntryForOffset
-//@   props C04
+//@   props C04,C02
 //@   requires wfR(r)
+//@   assert[C02] before "return ents[i], true" : wfChunkList(ents) && i > 0 ==> ents[i-1] != nil && ents[i-1].ChunkOffset + ents[i-1].ChunkSize == ents[i].ChunkOffset
+//@   assert[C02] before "return ents[i], true" : wfChunkList(ents) ==> ents[i] != nil && ents[i].ChunkSize > 0 && (i == 0 ==> ents[i].ChunkOffset == 0)
+//@   assert[C02] before "return ents[i], true" : wfChunkList(ents) && 0 <= offset ==> ents[i].ChunkOffset <= offset && offset < ents[i].ChunkOffset + ents[i].ChunkSize
 //@ func (r *Reader) newFileReader
 //@   props C04
 //@   requires wfR(r)
@@ -88,3 +93,6 @@ package estargz
 //@   loop 0 invariant[C04] forall k string :: k in r.chunks ==> ref(r.chunks[k]) != ref(r.toc.Entries)
 //@   loop 1 invariant[C04] wfM(r)
 //@   loop 2 invariant[C04] -1 <= i && i < len(r.toc.Entries)
+//@ func (e *TOCEntry) isDataType
+//@   props C02
+//@   ensures[C02] result <==> (e.Type == "reg" || e.Type == "chunk")
